@@ -317,6 +317,9 @@ class UnitTags:
     def derived(self, name, args, seen):
         """units of Time::from((d,s)), Speed::from((d,t)), Energy::from((rate,d))"""
         m = re.search(r"::(?:into|from)\{.*?(time::Time|speed::Speed|energy::Energy)\}$", name)
+        if not m:
+            # the same conversion named by its impl: <Energy as From<(EnergyRate, Distance)>>::from
+            m = re.match(r"^<\S*?(time::Time|speed::Speed|energy::Energy) as std::convert::From<\(", name)
         if not m or len(args) != 1 or args[0][0] != "tuple" or len(args[0][1]) != 2:
             return None
         a, b = args[0][1]
